@@ -311,15 +311,44 @@ def run_cancel_quiet(scn, seed, k, after=(), debug=False, complete_ids=False):
     return tr
 
 
-def run_resubmit(scn, seed, flag_sets, debug=False):
-    """Run a submission to completion, then resubmit-jobs (once per entry of flag_sets), each followed by the recovery."""
+def regroup_file(r, scn, newgroups, k):
+    """What the user does before `resubmit-jobs -s`: `jade config save-submission-groups`, edit the parameters, pass the file.
+    The trace gets a `regroup` event with the new parameters in the monitor's form."""
+    from harness import scenario
+    data = json.load(open(os.path.join(r.w.out, "submitter_groups.json")))
+    byname = {g["name"]: g for g in newgroups}
+    for g in data:
+        n = byname[g["name"]]
+        sp = g["submitter_params"]
+        sp["per_node_batch_size"] = n["size"]
+        sp["try_add_blocked_jobs"] = bool(n["tryadd"])
+        sp["num_parallel_processes_per_node"] = n["procs"] or None
+        sp["time_based_batching"] = bool(n["tb"])
+        sp["verbose"] = bool(n.get("verbose", False))
+        sp["hpc_config"]["hpc"]["walltime"] = f"0:{int(n.get('wall', scenario.WALL_MIN))}:00"
+        for key in ("partition", "qos", "mem"):
+            sp["hpc_config"]["hpc"][key] = n.get(key) or None
+    path = os.path.join(os.path.dirname(r.w.out), f"new_groups_{k}.json")
+    with open(path, "w") as f:
+        json.dump(data, f, indent=2)
+    scn2 = dict(scn, groups=newgroups)
+    r.w.ev(e="regroup", groups=scenario.tla_scn(scn2, "x")["groups"])
+    return path
+
+
+def run_resubmit(scn, seed, flag_sets, regroups=None, debug=False):
+    """Run a submission to completion, then resubmit-jobs (once per entry of flag_sets), each followed by the recovery.
+    regroups[k] (optional): the groups' new parameters handed to the k-th resubmission with -s."""
     r = Run(scn, seed, debug=debug)
     try:
         r.submit()
         r.drain()
         r.recover(how="try-submit-jobs")
-        for flags in flag_sets:
+        for k, flags in enumerate(flag_sets):
             r.recoveries = 0
+            st = r.status()
+            if regroups and k < len(regroups) and regroups[k] and st and st["complete"]:
+                flags = list(flags) + ["-s", regroup_file(r, scn, regroups[k], k)]
             r.user("resubmit-jobs", r.w.out, *flags)
             r.drain()
             r.recover(how="try-submit-jobs")
